@@ -366,14 +366,51 @@ def glob_correspondence(ck, rng, n):
     ck.cov["evaluations"] = ck.cov.get("evaluations", 0) + len(kept)
 
 
+SUB_HEADER = """From Coq Require Import List String Bool. Import ListNotations. Open Scope string_scope.
+From SV Require Import Model.Subscription Gen.TransportGen.
+Definition cs : list qcase := [
+%s
+].
+Eval vm_compute in qbad closed_tested_before_pop cs 0.
+"""
+
+
 def sequential_oracles(ck):
-    res, err = run_job({"sequential": True}, 120)
+    res, err = run_job({"sequential": True, "seed": ck.seed, "random_sequences": 300 if ck.tier == "thorough" else 80}, 180)
     if res is None:
         ck.corr_problem("sequential oracle run did not complete", str(err)[-800:])
         return
     for sig, what in res["oracle"]:
         ck.fail_input(sig, what, {"sequential": True})
-    ck.notes["sequential_sequences"] = 10
+    # the same sequences through Model/Subscription.v (delivered ids in order, what is left queued per channel)
+    cases = res.get("model_cases") or []
+
+    def op_lit(o):
+        if o[0] == "pub":
+            return "(OPub %s)" % cq_str(o[1])
+        if o[0] == "open":
+            return "(OOpen %s)" % cq_str(o[1])
+        if o[0] == "next":
+            return "(ONext %d)" % o[1]
+        if o[0] == "close":
+            return "(OClose %d)" % o[1]
+        return "(ODrain %s 200)" % cq_str(o[1])
+    lits = ["(%s, %s, %s)" % (cq_list([op_lit(o) for o in c["ops"]]), cq_list(c["delivered"], cq_nat),
+                             cq_list(["(%s, %s)" % (cq_str(ch), cq_list(q, cq_nat)) for ch, q in c["left"]])) for c in cases]
+    if lits:
+        per, errs = core.mismatches("C14_sub", [SUB_HEADER % ";\n".join(lits[i:i + 200]) for i in range(0, len(lits), 200)], timeout=600)
+        for k, rc, out in errs:
+            ck.corr_problem("subscription correspondence shard %d did not evaluate (rc=%s)" % (k, rc), out)
+        bad = []
+        for k, ls in enumerate(per):
+            if ls is not None:
+                bad += [cases[k * 200 + b] for b in ls[0]]
+        for c in bad[:4]:
+            ck.corr_problem("Model/Subscription.v and the transport disagree on an operation sequence of one consumer (%s)" % c["name"],
+                            json.dumps(c)[:1200], case=c)
+        ck.notes["subscription_correspondence"] = {"sequences": len(cases), "disagreements": len(bad)}
+        ck.cov["evaluations"] = ck.cov.get("evaluations", 0) + len(cases)
+    ck.notes["sequential_sequences"] = len(cases)
 
 
 def replay(obj):
